@@ -37,6 +37,7 @@ FIRSTFIELD = z3.Function("py_firstfield", StrS, StrS)
 LASTPIECE = z3.Function("py_lastpiece", StrS, StrS, StrS)
 WC = z3.Function("spec_write_continue_output", StrS, IntS, StrS, StrS)
 JOINPRE = z3.Function("py_joinpre", z3.ArraySort(IntS, StrS), IntS, StrS)
+ISDIGIT = z3.Function("py_isdigit", StrS, BoolS)
 TOINT = z3.Function("py_int_of_str", StrS, IntS)
 TOINTB = z3.Function("py_int_of_str_base", StrS, IntS, IntS)
 INTOKB = z3.Function("py_int_parses_base", StrS, IntS, BoolS)
@@ -138,12 +139,18 @@ class MethodsMixin(object):
         def m_split(ex, st, args, kw, node):
             return self.str_split(s, args, st, node)
 
+        def m_isdigit(ex, st, args, kw, node):
+            # abstract: a non-empty all-digit string is exactly what int() accepts without sign/space (ASCII digits)
+            r = ISDIGIT(s)
+            st.assume(z3.Implies(r, z3.And(INTOK(s), z3.Length(s) >= 1, TOINT(s) >= 0)))
+            return VBool(r)
+
         def m_rfind(ex, st, args, kw, node):
             raise OutOfSubset("rfind", node)
 
         table = dict(lstrip=m_lstrip, rstrip=m_rstrip, strip=m_strip, lower=m_lower, upper=m_upper,
                      isupper=m_isupper, islower=m_islower, startswith=m_startswith, endswith=m_endswith,
-                     find=m_find, replace=m_replace, join=m_join, format=m_format, split=m_split)
+                     find=m_find, replace=m_replace, join=m_join, format=m_format, split=m_split, isdigit=m_isdigit)
         if name not in table:
             raise OutOfSubset("str method %s" % name, node)
         return VFun("str." + name, table[name])
@@ -234,6 +241,17 @@ class MethodsMixin(object):
         at least one piece when a separator is given; no piece contains the separator (single-char sep)."""
         n = z3.Int(fresh_name("split_len"))
         arr = z3.Array(fresh_name("split_arr"), IntS, StrS)
+        if len(args) == 2 and self.conc(args[1]) == 1:
+            # s.split(sep, 1): split at the first occurrence only
+            sep = self.want_str(args[0], st, node)
+            has = z3.Contains(s, sep)
+            a0, a1 = z3.Select(arr, 0), z3.Select(arr, 1)
+            st.assume(n == z3.If(has, 2, 1))
+            st.assume(z3.Implies(has, z3.And(s == z3.Concat(a0, sep, a1), z3.Not(z3.Contains(a0, sep)))))
+            st.assume(z3.Implies(z3.Not(has), a0 == s))
+            return st.alloc(HList("str", n, arr))
+        if len(args) > 1:
+            raise OutOfSubset("split with maxsplit", node)
         if args:
             sep = self.want_str(args[0], st, node)
             st.assume(n >= 1)
@@ -387,6 +405,8 @@ class MethodsMixin(object):
             return VFun("%s.%s" % (cell.cls, name), lambda ex, st, args, kw, node, val=val: val)
         if cell.cls == "file" and name == "readlines":
             return VFun("file.readlines", lambda ex, st, args, kw, node: st.heap[ref.oid].f["lines"])
+        if cell.cls == "Tree" and name == "update":
+            return VFun("Tree.update", lambda ex, st, args, kw, node: VNone())
         if cell.cls == "Tree" and name == "setdefault":
             # abstract nested-dict navigation: a child node (identity abstracted)
             return VFun("Tree.setdefault", lambda ex, st, args, kw, node: st.alloc(HObj("Tree", {})))
@@ -726,7 +746,16 @@ class MethodsMixin(object):
             st.assume(z3.Implies(k >= 0, EVAL(z3.Concat(e, z3.StringVal("+"), z3.IntToStr(k))) == EVAL(e) + k))
             return VNone()
 
-        return dict(evalv=sf_evalv, eval_plus=sf_eval_plus, validfmt=sf_validfmt, wfmt=sf_wfmt, same_except=sf_same_except, isnone=sf_isnone, isbool=sf_isbool, firstfield=sf_firstfield, lastpiece=sf_lastpiece, isint=sf_isint, isstr=sf_isstr, asstr=sf_asstr, WC=sf_wc, code=_sf_code(self), all=sf_all, old=sf_old, implies=sf_implies, iff=sf_iff, allws=sf_allws,
+        def sf_intok(node, st):
+            return VBool(INTOK(self.want_str(self.ev(node.args[0], st), st, node)))
+
+        def sf_toint(node, st):
+            return VInt(TOINT(self.want_str(self.ev(node.args[0], st), st, node)))
+
+        def sf_isdigit(node, st):
+            return VBool(ISDIGIT(self.want_str(self.ev(node.args[0], st), st, node)))
+
+        return dict(isdigit_=sf_isdigit, intok=sf_intok, toint=sf_toint, evalv=sf_evalv, eval_plus=sf_eval_plus, validfmt=sf_validfmt, wfmt=sf_wfmt, same_except=sf_same_except, isnone=sf_isnone, isbool=sf_isbool, firstfield=sf_firstfield, lastpiece=sf_lastpiece, isint=sf_isint, isstr=sf_isstr, asstr=sf_asstr, WC=sf_wc, code=_sf_code(self), all=sf_all, old=sf_old, implies=sf_implies, iff=sf_iff, allws=sf_allws,
                     lstrip=sf_lstrip, rstrip=sf_rstrip)
 
 
